@@ -420,8 +420,8 @@ def proofOptions : Codec ProofOptions where
     let ff ← readU8
     let rd ← readU8
     let o : ProofOptions := ⟨nq, bl, gr, fe, ff, rd⟩
-    -- `ProofOptions::new` asserts
-    if o.wf then pure o else Dec.panic
+    -- the conditions of `ProofOptions::new` are checked first and reported as errors
+    if o.wf then pure o else Dec.fail
   wf := ProofOptions.wf
 
 -- ------------------------------------------------------------------------------------------------
@@ -459,8 +459,8 @@ def traceInfo : Codec TraceInfo where
     if rands > MAX_RAND_SEGMENT_ELEMENTS then Dec.fail else do
     let e ← readU8
     if e < MIN_TRACE_LENGTH.log2 then Dec.fail else do
-    -- `2_usize.pow(e)` overflows (debug build) from 2^64 on
-    if e ≥ 64 then Dec.panic else do
+    -- `1_usize.checked_shl(e)`
+    if e ≥ 64 then Dec.fail else do
     let n ← readUInt 2
     let md ← (if n ≠ 0 then readSlice n else pure [])
     let t : TraceInfo := ⟨main, aux, rands, 2 ^ e, md⟩
@@ -493,6 +493,9 @@ def context : Codec Context where
     if n = 0 then Dec.fail else do
     let m ← readSlice n
     let o ← proofOptions.dec
+    -- the size limits of `Context::new`
+    if ti.length > 4294967295 then Dec.fail else do
+    if ti.length * o.blowup > 4294967295 then Dec.fail else do
     pure ⟨ti, m, o⟩
   wf := Context.wf
   wpanic c := traceInfo.wpanic c.traceInfo || c.modulus.length ≥ 255
@@ -612,8 +615,10 @@ def friProof : Codec FriProof where
     let ls ← readMany friLayer.dec n
     let r ← (block 2).dec
     let np ← readU8
+    -- the number of partitions is stored as an exponent of two
+    if np ≥ 64 then Dec.fail else do
     pure ⟨ls, r, np⟩
-  wf p := p.layers.length < 256 && p.layers.all friLayer.wf && p.remainder.length < 65536 && p.numPartitions < 256
+  wf p := p.layers.length < 256 && p.layers.all friLayer.wf && p.remainder.length < 65536 && p.numPartitions < 64
 
 structure Proof where
   context : Context
